@@ -82,18 +82,18 @@ def one_table(F, path):
     return b, rows
 
 
-def r2(ck, F):
+def r2(ck, F, rid="C06.R2", push_pop_only=False):
     # push
     b, rows = one_table(F, ST + "::push")
-    if ck.anchor("C06.R2", "SpanStack::push", b):
+    if ck.anchor(rid, "SpanStack::push", b):
         cl = F.closures_of(b)
         eq = [show(p.ret) for c in cl for p in PathEval(c).run() if p.end == "return"]
         ok = len(rows) == 1 and rows[0][1].startswith("Not(any(iter(") and "push" in rows[0][2] and eq == ["eq(arg2.id, arg1.id)"]
         if ok:
             # the pushed entry carries that `duplicate` flag
-            ck.ok("C06.R2", "push: always appends; returns !any(existing id == id)", fn=b.path, detail=rows[0][1])
+            ck.ok(rid, "push: always appends; returns !any(existing id == id)", fn=b.path, detail=rows[0][1])
         else:
-            ck.bad("C06.R2", "push: always appends; returns !any(existing id == id)", where(b.raw["sp"]), "table %s closure %s" % (rows, eq), fn=b.path)
+            ck.bad(rid, "push: always appends; returns !any(existing id == id)", where(b.raw["sp"]), "table %s closure %s" % (rows, eq), fn=b.path)
         agg = [s for i, j, s in b.stmts() if "agg" in s.get("rv", {}) and s["rv"]["agg"].get("adt", "").endswith("stack::ContextId")]
         good = False
         if len(agg) == 1:
@@ -101,12 +101,12 @@ def r2(ck, F):
             d = b.origin(ops["duplicate"])
             good = d[0] == "call" and d[2]["callee"].get("method") == "any"
         if good:
-            ck.ok("C06.R2", "push: entry.duplicate = any(existing equal)", fn=b.path)
+            ck.ok(rid, "push: entry.duplicate = any(existing equal)", fn=b.path)
         else:
-            ck.bad("C06.R2", "push: entry.duplicate = any(existing equal)", where(b.raw["sp"]), "the pushed entry's duplicate flag is not the membership test", fn=b.path)
+            ck.bad(rid, "push: entry.duplicate = any(existing equal)", where(b.raw["sp"]), "the pushed entry's duplicate flag is not the membership test", fn=b.path)
     # pop
     b, rows = one_table(F, ST + "::pop")
-    if ck.anchor("C06.R2", "SpanStack::pop", b):
+    if ck.anchor(rid, "SpanStack::pop", b):
         hit = [r for r in rows if r[0] and r[0][0][1] == 1]
         miss = [r for r in rows if r[0] and r[0][0][1] != 1]
         cl = F.closures_of(b)
@@ -125,34 +125,36 @@ def r2(ck, F):
             if not eq or "expected_id" not in eq[0] or not eq[0].startswith("eq("):
                 problems.append("match predicate is %s (expected id == expected_id)" % eq)
         if problems:
-            ck.bad("C06.R2", "pop: newest matching entry is removed; returns !duplicate; false if absent", where(b.raw["sp"]), "; ".join(problems), fn=b.path)
+            ck.bad(rid, "pop: newest matching entry is removed; returns !duplicate; false if absent", where(b.raw["sp"]), "; ".join(problems), fn=b.path)
         else:
-            ck.ok("C06.R2", "pop: newest matching entry is removed; returns !duplicate; false if absent", fn=b.path, detail=hit[0][0][0][0])
+            ck.ok(rid, "pop: newest matching entry is removed; returns !duplicate; false if absent", fn=b.path, detail=hit[0][0][0][0])
+    if push_pop_only:
+        return
     # iter / current
     b, rows = one_table(F, ST + "::iter")
-    if ck.anchor("C06.R2", "SpanStack::iter", b):
+    if ck.anchor(rid, "SpanStack::iter", b):
         cl = F.closures_of(b)
         crow = [(tuple([(show(c[0]), c[1]) for c in p.conds[:1]]), show(p.ret)) for x in cl for p in PathEval(x).run() if p.end == "return"]
         ok = len(rows) == 1 and any(k in rows[0][1] for k in BACK_FIRST) and "filter_map(" in rows[0][1]
         skip = {(str(c), r) for c, r in crow}
         good_skip = any("duplicate', 0" in c and r.startswith("Option::Some") for c, r in skip) and any("Option::None" in r for c, r in skip)
         if ok and good_skip:
-            ck.ok("C06.R2", "iter: newest first, duplicates skipped", fn=b.path)
+            ck.ok(rid, "iter: newest first, duplicates skipped", fn=b.path)
         else:
-            ck.bad("C06.R2", "iter: newest first, duplicates skipped", where(b.raw["sp"]), "iter is %s with filter %s" % (rows, sorted(skip)), fn=b.path)
+            ck.bad(rid, "iter: newest first, duplicates skipped", where(b.raw["sp"]), "iter is %s with filter %s" % (rows, sorted(skip)), fn=b.path)
     b, rows = one_table(F, ST + "::current")
-    if ck.anchor("C06.R2", "SpanStack::current", b):
+    if ck.anchor(rid, "SpanStack::current", b):
         if len(rows) == 1 and rows[0][1] == "next(iter(arg1))":
-            ck.ok("C06.R2", "current == iter().next()", fn=b.path)
+            ck.ok(rid, "current == iter().next()", fn=b.path)
         else:
-            ck.bad("C06.R2", "current == iter().next()", where(b.raw["sp"]), "current is %s" % rows, fn=b.path)
+            ck.bad(rid, "current == iter().next()", where(b.raw["sp"]), "current is %s" % rows, fn=b.path)
     cs = F.body(REG_C + "current_span")
-    if ck.anchor("C06.R2", "Registry::current_span", cs):
+    if ck.anchor(rid, "Registry::current_span", cs):
         used = [t["callee"].get("method") for x in [cs] + F.closures_of(cs) for bb, t in x.calls()]
         if "current" in used and "get" in used:
-            ck.ok("C06.R2", "Registry::current_span reads this thread's stack top", fn=cs.path)
+            ck.ok(rid, "Registry::current_span reads this thread's stack top", fn=cs.path)
         else:
-            ck.bad("C06.R2", "Registry::current_span reads this thread's stack top", where(cs.raw["sp"]), "calls %s" % used)
+            ck.bad(rid, "Registry::current_span reads this thread's stack top", where(cs.raw["sp"]), "calls %s" % used)
 
 
 def parent_table(F, path, subject):
